@@ -74,6 +74,25 @@ Extensions used by unit Hfiledd (each one only takes effect when its option is g
     the buffer before the count); opts['ignore_members'] = [m]: a store into the POINTER member `m` (a back pointer) is not translated;
     opts['wrap_int_conv']: a conversion to int32 / int64 from an integer type that does not fit (uint32 -> int32, 64 -> 32 bits) wraps
     (implementation-defined in C, two's complement on every supported target) instead of being assumed representable.
+Extensions used by unit Hfile (C16: the physical I/O layer; each one only takes effect when its option is given / its construct occurs):
+  * opts['io'][f] = 'stdio_fseek' | 'stdio_fread' | 'stdio_fwrite' | 'stdio_ferror' (f = the stdio function after preprocessing: the HI_SEEK /
+    HI_READ_AVAIL / HI_WRITE macros are translated in their expanded form): the call is a REQUEST to the world outside the function.
+    Its result is NOT computed: it is the next cell of the result tape `io_res : List Int` (entry region; cell number `io_cnt`, an entry field
+    that the call increments; 0 beyond the end of the tape), so that a theorem about the translated function quantifies over every outcome
+    of every call.  Every request appends one record of three cells to the log `io_log` (entry region, so that calls compose):
+        fseek(f, off, whence)   [1 + 10 * whence, off, result]      (whence must be an integer literal)
+        fread(p, 1, n, f)       [2, n, result]                       (the item size must be the literal 1)
+        fwrite(p, 1, n, f)      [3, n, result]
+        ferror(f)               [4, 0, result]
+    fread stores the first min(result, n) cells (fewer when the stream holds fewer) that follow position `io_pos` of the input stream `io_in`
+    at p and advances `io_pos` by the number stored; fwrite appends the n cells at p to the output stream `io_out` (the payload of the
+    request: how many of them reach the file is the result's business).  The buffer must hold n cells (recorded in `ub` otherwise).
+    A translated function called from another one shares `io_res`, `io_cnt`, `io_log` (and the streams) with its caller.
+  * the comma operator inside an expression: the left operand is executed as a statement BEFORE the statement that contains the expression
+    (sequence point), the value is the right operand's.  Rejected in a conditionally evaluated position (right of && / ||, branch of ?:)
+    unless the left operand translates to nothing (a call in opts['ignore_calls']);
+  * `*&x` is `x`; `(void)x;` is nothing; `&x` (x an integer local) as the argument for an array parameter of a translated callee that
+    does not store through it is the one-cell region `[x]`.
 
   Extensions for the Vdata schema functions of vsfld.c (unit Vsfld; all opt-in through what the C text / the options contain):
   * opts['assume_calls'][f] = 'object': `w = (T *)f(…)` binds the struct-pointer local `w` to an object outside the function: `w` acts as a
@@ -629,6 +648,10 @@ class Fn:
                 fail("%s: unknown variable %s" % (self.name, nm))
             return ("scalar", lname(nm), ty)
         if k == "UnaryOperator" and n.get("opcode") == "*":
+            sub_ = self.skip(n["inner"][0])
+            if sub_.get("kind") == "UnaryOperator" and sub_.get("opcode") == "&" and int_width(qt(sub_["inner"][0])) is not None \
+                    and self.skip(sub_["inner"][0]).get("kind") == "DeclRefExpr" and self.skip(sub_["inner"][0])["referencedDecl"]["name"] not in self.ptr:
+                return self.lvalue(sub_["inner"][0])      # `*&x` is `x`
             r, i, c, e = self.pexpr(n["inner"][0])
             return ("elem", r, i, c + [self.inb(r, i)], e, ty)
         if k == "ArraySubscriptExpr":
@@ -729,6 +752,13 @@ class Fn:
         return self.pidx.get(nm, lname(nm))
 
     def use_io(self, which):
+        if which == "stdio":
+            if "io_res" not in self.regions:
+                self.owner = None
+                self.region("io_res")
+                self.scalar("io_cnt", entry=True)
+                self.region("io_log")
+            return
         if which == "in":
             if "io_in" not in self.regions:
                 self.owner = None
@@ -738,6 +768,52 @@ class Fn:
             if "io_out" not in self.regions:
                 self.owner = None
                 self.region("io_out")
+
+    def int_literal(self, n):
+        while n.get("kind") in ("ParenExpr", "ImplicitCastExpr", "CStyleCastExpr", "ConstantExpr"):
+            n = n["inner"][0]
+        return int(n["value"]) if n.get("kind") == "IntegerLiteral" else None
+
+    def stdio_call(self, n, nm, io):
+        """a stdio call as a request to the outside world (see the header): result from the tape io_res, one record appended to io_log"""
+        self.use_io("stdio")
+        res = "(s.io_res.getD (Int.toNat s.io_cnt) 0)"
+        effs = [Eff(("scalar", "io_cnt"), "(s.io_cnt + 1)", "io_cnt")]
+        a = n["inner"]
+        checks = []
+        if io == "stdio_fseek":
+            ot, oc, oe = self.rvalue(a[2])
+            w = self.int_literal(a[3])
+            if oe or w is None:
+                fail("%s: %s with a side effect in the offset or a whence that is not a literal" % (self.name, nm))
+            rec, checks = [str(1 + 10 * w), ot, res], oc
+        elif io == "stdio_ferror":
+            rec = ["4", "0", res]
+        else:
+            if self.int_literal(a[2]) != 1:
+                fail("%s: %s with an item size other than the literal 1" % (self.name, nm))
+            nt, nc, ne = self.rvalue(a[3])
+            rr, ri, rc, re_ = self.pexpr(a[1])
+            if ne or re_:
+                fail("%s: side effect in %s arguments" % (self.name, nm))
+            checks = nc + rc + ["(0 : Int) ≤ %s" % nt, "0 ≤ %s ∧ %s + %s ≤ %s.length" % (ri, ri, nt, self.rt(rr))]
+            if io == "stdio_fwrite":
+                self.use_io("out")
+                rec = ["3", nt, res]
+                effs.append(Eff(("whole", "io_out"), "(s.io_out ++ ((%s.drop (Int.toNat (%s))).take (Int.toNat (%s))))" % (self.rt(rr), ri, nt), "io_out"))
+            else:
+                self.use_io("in")
+                if rr.startswith("#") or rr.startswith("@"):
+                    fail("%s: %s into a read-only region" % (self.name, nm))
+                rec = ["2", nt, res]
+                d = "((s.io_in.drop (Int.toNat s.io_pos)).take (min (Int.toNat %s) (Int.toNat (%s))))" % (res, nt)
+                effs.append(Eff(("whole", rr), "((s.%s.take (Int.toNat (%s))) ++ %s ++ (s.%s.drop (Int.toNat (%s) + %s.length)))" % (rr, ri, d, rr, ri, d), rr))
+                effs.append(Eff(("scalar", "io_pos"), "(s.io_pos + Int.ofNat %s.length)" % d, "io_pos"))
+        effs.append(Eff(("whole", "io_log"), "(s.io_log ++ [%s])" % ", ".join(rec), "io_log"))
+        note = "the stdio calls are requests to the world outside: the result of each one is the next cell of the tape `io_res` (cell `io_cnt`), the request and its result are appended to `io_log`"
+        if note not in self.notes:
+            self.notes.append(note)
+        return res, checks, effs
 
     def rt(self, r):
         """Lean term of a region: a state field, or (read-only) one row of an array of rows `#field#index`"""
@@ -832,7 +908,13 @@ class Fn:
                     return tv, cv, ev + [Eff(lv, tv, lv[1])]
                 return tv, cv + lv[3], ev + lv[4] + [Eff(("elem", lv[1], lv[2]), tv, lv[1])]
             if op == ",":
-                fail("%s: operator `%s` inside an expression" % (self.name, op))
+                # sequence point: the left operand is executed as a statement before the statement that contains this expression
+                a_, b_ = n["inner"]
+                lines = self.stmt(a_, "")
+                if lines and getattr(self, "cond_ctx", 0) > 0:
+                    fail("%s: operator `,` with an effect in a conditionally evaluated position" % self.name)
+                self.pre_lines += lines
+                return self.rvalue(b_)
             a, b = n["inner"]
             if op == "-" and ptr_elem(qt(a)) is not None and ptr_elem(qt(b)) is not None:
                 ra, ia, ca, ea = self.pexpr(a)
@@ -846,8 +928,12 @@ class Fn:
             return t, ca + cb + c, ea + eb
         if k == "ConditionalOperator":
             c, cc, ce = self.cond(n["inner"][0])
-            a, ca, ea = self.rvalue(n["inner"][1])
-            b, cb, eb = self.rvalue(n["inner"][2])
+            self.cond_ctx = getattr(self, "cond_ctx", 0) + 1
+            try:
+                a, ca, ea = self.rvalue(n["inner"][1])
+                b, cb, eb = self.rvalue(n["inner"][2])
+            finally:
+                self.cond_ctx -= 1
             if ea or eb:
                 fail("%s: side effect inside ?:" % self.name)
             return "(if %s then %s else %s)" % (c, a, b), cc + ["¬(%s) ∨ (%s)" % (c, x) for x in ca] + ["(%s) ∨ (%s)" % (c, x) for x in cb], ce
@@ -988,6 +1074,8 @@ class Fn:
                 chk = ["(0 : Int) ≤ %s" % nt, "0 ≤ %s ∧ %s + %s ≤ s.%s.length" % (ri, ri, nt, rr)]
                 new_reg = "(if %s then (s.%s.take (Int.toNat (%s))) ++ ((s.io_in.drop (Int.toNat s.io_pos)).take (Int.toNat (%s))) ++ (s.%s.drop (Int.toNat (%s + %s))) else s.%s)" % (ok, rr, ri, nt, rr, ri, nt, rr)
                 return "(if %s then %s else -1)" % (ok, nt), nc + rc + chk, [Eff(("whole", rr), new_reg, rr), Eff(("scalar", "io_pos"), "(if %s then s.io_pos + %s else s.io_pos)" % (ok, nt), "io_pos")]
+            if io in ("stdio_fseek", "stdio_fread", "stdio_fwrite", "stdio_ferror"):
+                return self.stdio_call(n, nm, io)
             fail("%s: call of %s inside an expression" % (self.name, nm))
         if k == "UnaryExprOrTypeTraitExpr" and n.get("name") == "sizeof":
             at = n.get("argType", {}).get("qualType")
@@ -1081,7 +1169,11 @@ class Fn:
             if op == "&&":
                 ta, ca, ea = self.cond(a)
                 npre = len(self.pre_lines)
-                tb, cb, eb = self.cond(b)
+                self.cond_ctx = getattr(self, "cond_ctx", 0) + 1
+                try:
+                    tb, cb, eb = self.cond(b)
+                finally:
+                    self.cond_ctx -= 1
                 if len(self.pre_lines) != npre:
                     fail("%s: call of a translated function on the right of &&" % self.name)
                 if eb:
@@ -1093,7 +1185,11 @@ class Fn:
             if op == "||":
                 ta, ca, ea = self.cond(a)
                 npre = len(self.pre_lines)
-                tb, cb, eb = self.cond(b)
+                self.cond_ctx = getattr(self, "cond_ctx", 0) + 1
+                try:
+                    tb, cb, eb = self.cond(b)
+                finally:
+                    self.cond_ctx -= 1
                 if len(self.pre_lines) != npre:
                     fail("%s: call of a translated function on the right of ||" % self.name)
                 if eb:
@@ -1436,6 +1532,8 @@ class Fn:
             return [self.upd("brk", "true", ind)]
         if k == "ContinueStmt":
             return [self.upd("cnt", "true", ind)]
+        if k in ("ImplicitCastExpr", "DeclRefExpr") and self.skip(n).get("kind") == "DeclRefExpr":
+            return []      # `(void)x;`: the value of a variable, discarded
         fail("%s: unsupported statement %s" % (self.name, k))
 
     def switch(self, n, ind):
@@ -2056,6 +2154,11 @@ class Fn:
                     fail("%s: side effect in an argument of %s" % (self.name, nm))
                 amap[fields[0][0]] = tv
                 checks += cv
+            elif fields and self.addr_of_scalar(a) is not None:
+                # `&x`, x an integer local: the callee sees a region of one cell holding x (only for a parameter the callee does not store into)
+                if fields[0][0] in callee.setters:
+                    fail("%s: %s stores through the address of the scalar %s" % (self.name, nm, self.addr_of_scalar(a)))
+                amap[fields[0][0]] = "[s.%s]" % self.addr_of_scalar(a)
             elif fields:
                 rr, ri, rc, re_ = self.pexpr(a)
                 if re_ or ri != "0" or rr.startswith("#") or rr.startswith("@"):
@@ -2074,6 +2177,11 @@ class Fn:
                 self.use_io("in")
                 amap[f] = "s.io_pos"
                 back.append((f, ("scalar", "io_pos")))
+            elif f in ("io_res", "io_log", "io_cnt"):
+                self.use_io("stdio")
+                amap[f] = "s.%s" % f
+                if f != "io_res":
+                    back.append((f, ("scalar" if f == "io_cnt" else "whole", f)))
             else:
                 fail("%s: entry field %s of %s has no counterpart in the caller" % (self.name, f, nm))
         order = [f for f, _ in callee.ordered]
@@ -2095,6 +2203,16 @@ class Fn:
                 self.pre_lines.append(self.upd(how[1], "s.%s.set (Int.toNat s.%s) r%d.%s" % (how[1], how[2], k, f), ""))
         self.pre_lines.append("have s : %s.St := %s.St.join s r%d.ub r%d.oof" % (self.name, self.name, k, k))
         return "r%d.ret" % k, [], []
+
+    def addr_of_scalar(self, a):
+        """`&x` with x an integer local / parameter that is a state field -> its field name, else None"""
+        r = self.skip(a)
+        if r.get("kind") == "UnaryOperator" and r.get("opcode") == "&":
+            x = self.skip(r["inner"][0])
+            if x.get("kind") == "DeclRefExpr" and int_width(qt(x)) is not None and x["referencedDecl"]["name"] not in self.ptr \
+                    and lname(x["referencedDecl"]["name"]) in self.scalars:
+                return lname(x["referencedDecl"]["name"])
+        return None
 
     def can_exit(self, n):
         if n.get("kind") in ("ReturnStmt", "BreakStmt", "ContinueStmt", "GotoStmt"):
